@@ -358,6 +358,18 @@ func Facts(repo string) (string, error) {
 		fmt.Fprintf(&sb, "-- probeFrom failed: %s\n", strings.ReplaceAll(perr.Error(), "\n", " "))
 	}
 	fmt.Fprintf(&sb, "/-- probe: (role of the session, stream namespace, the address `LocalAddr()` reports, the `from` stamped on\nan outgoing `<message/>`) for sessions whose four addresses are `inTo`, `inFrom`, `outFrom`, `outTo` -/\ndef fromProbe : Option (List (String × String × String × String)) := %s\n", fp)
+	vp, verr := probeValues()
+	if verr != nil {
+		vp = "none"
+		fmt.Fprintf(&sb, "-- probeValues failed: %s\n", strings.ReplaceAll(verr.Error(), "\n", " "))
+	}
+	fmt.Fprintf(&sb, "/-- probe: (entry point, which encoding methods the value has (w = WriteXML, m = TokenReader(), r = Token(),\nx = MarshalXML), the method whose element reached the wire (p = reflection), did the element arrive with its\nname and its two namespaced attributes intact and nothing else) -/\ndef valueProbe : Option (List (String × String × String × Bool)) := %s\n", vp)
+	cp, cerr := probeConnWrite()
+	if cerr != nil {
+		cp = "none"
+		fmt.Fprintf(&sb, "-- probeConnWrite failed: %s\n", strings.ReplaceAll(cerr.Error(), "\n", " "))
+	}
+	fmt.Fprintf(&sb, "/-- probe: `Session.Conn().Write(\"abcdefgh\")` on a transport that is not a net.Conn and answers with the\nscript (bytes accepted, 0 = no error / 1 = temporary / 2 = timeout / 3 = permanent): reported count, was an\nerror reported, the bytes the transport accepted -/\ndef connWriteProbe : Option (List (List (Nat × Nat) × Nat × Bool × List Nat)) := %s\n", cp)
 	sb.WriteString("\nend XmppModel.Generated.C05\n")
 	return sb.String(), nil
 }
